@@ -17,8 +17,11 @@ TRUSTED = vcheck.STD_TRUSTED + [
 BAD = ("panic", "killed", "hang", "leak", "nil_table_nil_error")
 
 
-def crash(args):
-    rc, out = sh([os.path.join(BIN, "h_crash")] + args, cwd=REPO, env=vcheck.goenv(), timeout=3000)
+def crash(args, procs=None):
+    env = vcheck.goenv()
+    if procs:
+        env["GOMAXPROCS"] = str(procs)
+    rc, out = sh([os.path.join(BIN, "h_crash")] + args, cwd=REPO, env=env, timeout=3000)
     if rc != 0:
         raise vcheck.Broken("h_crash failed", out[-3000:])
     return [json.loads(l) for l in out.splitlines() if l.startswith("{")]
@@ -35,9 +38,11 @@ def run(ctx):
     extra = os.path.join(ctx.work, "extra.jsonl")
     with open(extra, "w") as f:
         for fam, n in (("c03", 2500 if thorough else 250), ("c10", 2500 if thorough else 300), ("c14", 600 if thorough else 60)):
+            if any("did not finish" in o for _, o in gen_broken):
+                break                  # one stuck generator is enough of a symptom; do not wait for the others
             try:
                 rc, out = sh([os.path.join(BIN, "h_query"), "-mode", "gen", "-family", fam, "-n", str(n), "-seed", str(ctx.seed)],
-                             cwd=REPO, env=vcheck.goenv(), timeout=400)
+                             cwd=REPO, env=vcheck.goenv(), timeout=1200 / vcheck.TSCALE)
             except Exception as e:     # the generator executes its statements on the engine: a hang there is a symptom
                 rc, out = 1, "h_query -mode gen did not finish: %r" % e
             if rc != 0:
@@ -49,6 +54,9 @@ def run(ctx):
                     if d.get("query"):
                         f.write(json.dumps({"query": d["query"], "from": d.get("from"), "graph_texts": d.get("graph_texts")}) + "\n")
     rows = crash(["-seed", str(ctx.seed), "-n", "40000" if thorough else "500", "-exhaust", "3" if thorough else "2", "-extra", extra])
+    # the same corpus, templates and witnesses on ONE processor (worker pools sized by GOMAXPROCS, producers and consumers that
+    # need each other to run: C07-seed5-m2 deadlocked every join there and nowhere else)
+    rows += [dict(r, kind=r["kind"] + "@1cpu") for r in crash(["-seed", str(ctx.seed), "-n", "0", "-exhaust", "0"], procs=1)]
     known = vcheck.known_findings("C08")
     hits = collections.Counter()
     reported = 0
